@@ -1677,7 +1677,9 @@ func (self *ReplicationAckDB) ProcessLeaderPushLock(glockIndex uint16, aofLock *
 	aofId := aofLock.GetAofId()
 	self.commandAofs[glockIndex][lock.command.RequestId] = aofId
 	self.aofLocks[glockIndex][aofId] = lock
-	lock.ackCount = self.ackCount
+	if lock.ackCount != 0xff {
+		lock.ackCount = self.ackCount
+	}
 	self.ackGlocks[glockIndex].Unlock()
 	return nil
 }
